@@ -4,6 +4,7 @@ package symx
 // packages, lazy package initialisation.
 
 import (
+	"bytes"
 	"encoding/hex"
 	"fmt"
 	"go/types"
@@ -675,6 +676,7 @@ func baseHooks() map[string]hookFn {
 	h["os.LookupEnv"] = func(i *interpreter, fr *frame, fn *ssa.Function, args []value) value { return tuple{"", false} }
 	addSyncHooks(h)
 	addSortHooks(h)
+	addBytealgHooks(h)
 	addNetModel(h)
 	return h
 }
@@ -769,5 +771,41 @@ func addSortHooks(h map[string]hookFn) {
 			}
 		}
 		return true
+	}
+}
+
+// internal/bytealg: the assembly primitives under strings and bytes, on concrete values.
+func addBytealgHooks(h map[string]hookFn) {
+	const p = "internal/bytealg."
+	b := func(v value) byte { return byte(asInt64(v)) }
+	h[p+"IndexByteString"] = func(i *interpreter, fr *frame, fn *ssa.Function, args []value) value {
+		return strings.IndexByte(goString(args[0], "IndexByteString"), b(args[1]))
+	}
+	h[p+"LastIndexByteString"] = func(i *interpreter, fr *frame, fn *ssa.Function, args []value) value {
+		return strings.LastIndexByte(goString(args[0], "LastIndexByteString"), b(args[1]))
+	}
+	h[p+"IndexByte"] = func(i *interpreter, fr *frame, fn *ssa.Function, args []value) value {
+		return bytes.IndexByte(goBytes(args[0], "bytealg.IndexByte"), b(args[1]))
+	}
+	h[p+"LastIndexByte"] = func(i *interpreter, fr *frame, fn *ssa.Function, args []value) value {
+		return bytes.LastIndexByte(goBytes(args[0], "bytealg.LastIndexByte"), b(args[1]))
+	}
+	h[p+"CountString"] = func(i *interpreter, fr *frame, fn *ssa.Function, args []value) value {
+		return strings.Count(goString(args[0], "CountString"), string([]byte{b(args[1])}))
+	}
+	h[p+"Count"] = func(i *interpreter, fr *frame, fn *ssa.Function, args []value) value {
+		return bytes.Count(goBytes(args[0], "bytealg.Count"), []byte{b(args[1])})
+	}
+	h[p+"IndexString"] = func(i *interpreter, fr *frame, fn *ssa.Function, args []value) value {
+		return strings.Index(goString(args[0], "IndexString"), goString(args[1], "IndexString"))
+	}
+	h[p+"Index"] = func(i *interpreter, fr *frame, fn *ssa.Function, args []value) value {
+		return bytes.Index(goBytes(args[0], "bytealg.Index"), goBytes(args[1], "bytealg.Index"))
+	}
+	h[p+"Equal"] = func(i *interpreter, fr *frame, fn *ssa.Function, args []value) value {
+		return h["bytes.Equal"](i, fr, fn, args)
+	}
+	h[p+"Compare"] = func(i *interpreter, fr *frame, fn *ssa.Function, args []value) value {
+		return bytes.Compare(goBytes(args[0], "bytealg.Compare"), goBytes(args[1], "bytealg.Compare"))
 	}
 }
